@@ -90,6 +90,19 @@ func parseString(filename string, input antlr.CharStream) (tree parser.ISysl_fil
 	return tree, nil
 }
 
+// walkTree builds the model from a parse tree. The listener assumes more about the shape of the tree than the
+// grammar guarantees (size specs on types that take none, overflowing digits, ill-formed escapes, scope-stack
+// shape): a panic raised while walking is reported as a parse error of the file instead of crashing the caller.
+func walkTree(listener *TreeShapeListener, tree antlr.ParseTree, filename string) (err error) {
+	defer func() {
+		if r := recover(); r != nil {
+			err = syslutil.Exitf(ParseError, "%s cannot be compiled: %v\n", filename, r)
+		}
+	}()
+	antlr.NewParseTreeWalker().Walk(listener, tree)
+	return nil
+}
+
 func importForeign(def importDef, input antlr.CharStream) (antlr.CharStream, error) {
 	logger := logrus.StandardLogger()
 	fileName, _ := mod.ExtractVersion(def.filename)
@@ -336,8 +349,9 @@ func (p *Parser) parseSpecs(specs []srcInput, listener *TreeShapeListener) (*sys
 			return nil, err
 		}
 
-		walker := antlr.NewParseTreeWalker()
-		walker.Walk(listener, tree)
+		if err := walkTree(listener, tree, src.filename); err != nil {
+			return nil, err
+		}
 	}
 
 	listener.lintAppDefs()
@@ -508,8 +522,9 @@ func parseImports(parent importDef, src sourceCtxHelper, input string) ([]import
 		return nil, err
 	}
 
-	walker := antlr.NewParseTreeWalker()
-	walker.Walk(listener, tree)
+	if err := walkTree(listener, tree, parent.filename); err != nil {
+		return nil, err
+	}
 
 	return listener.imports, nil
 }
